@@ -80,6 +80,10 @@ def _evaluate_edit(case):
         fresh = to_tree_grid(mt, m.data, m.grid)
         if not (tree == fresh) or hash(tree) != hash(fresh):
             raise Violation("identity/history", "%s: the tree %r does not compare/hash equal to a freshly built tree with the same clades and outliers" % (label, mt), dict(where=label))
+        for nm, f in (("log_p", m.td.log_p), ("log_p_one", m.td.log_p_one)):
+            a, b = float(f(tree)), float(f(fresh))
+            if not abs(a - b) <= 1e-8 * max(1.0, abs(b)):
+                raise Violation("density/history", "%s: %s=%.12g after this construction history, %.12g for the same tree built directly (%r)" % (label, nm, a, b, mt), dict(where=label, form=nm))
         if mt.outliers:
             other = MTree(mt.blocks, mt.parent, mt.outliers[1:])
             if tree == to_tree_grid(other, m.data, m.grid):
